@@ -7,12 +7,21 @@
    (nothing lost, nothing twice, order kept), which is what the
    single-language run returns; every part has as many positions as
    characters, and the positions of the parts (placeholders included) are
-   positions of the stream.  Not proved: that the language label of a
-   section is the language in force (the stack discipline of
-   \selectlanguage, \foreignlanguage, otherlanguage) and the threshold rule
-   for short insertions; compared with the implementation and decided by the
+   positions of the stream.  The label, for an insertion in running text
+   (C12_insertion_labelled): a stream  a, switch to l, b, switch back, c  with
+   l different from the main language and no further language token is split
+   into the text of a labelled with the main language, the text of b labelled
+   l, the text of c labelled with the main language, in this order; behind a
+   hard switch (\selectlanguage) everything carries the new language
+   (C12_hard_switch_labelled); an insertion in the language already in force
+   cuts nothing (C12_same_language_no_cut).  The threshold rule on three
+   sections: a short insertion becomes a part of its own and its neighbours
+   are joined around the placeholder (C12_short_insertion_joined), a long one
+   stays between them (C12_long_insertion_kept).  Not proved: the label under
+   deeper nesting (the full stack discipline) and the threshold rule on longer
+   section lists; compared with the implementation and decided by the
    oracle of harness/props/c12.py on the C12 stream. *)
-From YV Require Import PyBase Token Utils Ml MlProofs.
+From YV Require Import PyBase Token Utils Ml MlProofs MlInsert.
 Open Scope Z_scope.
 
 Theorem C12_sections_conserve : forall toks stack back brk cur secs,
@@ -29,6 +38,67 @@ Theorem C12_parts_positions : forall is_space check_lang thresh (R : Z -> Prop) 
                                      /\ Forall R (snd tp)) (snd e)) res.
 Proof. exact get_txt_pos_ml_lengths. Qed.
 Print Assumptions C12_parts_positions.
+
+Theorem C12_insertion_labelled : forall a b c main l lb p1 p2 k1 k2,
+  Forall (fun t => is_lang t = false) a ->
+  Forall (fun t => is_lang t = false) b ->
+  Forall (fun t => is_lang t = false) c ->
+  str_eqb l main = false -> str_eqb lb l = false ->
+  sections (a ++ LangT p1 l false false k1 :: b ++ LangT p2 lb true false k2 :: c)
+           [main] false false [] []
+  = stretch main false false a ++ stretch l false k1 b ++ stretch main true k2 c.
+Proof. exact sections_insertion. Qed.
+Print Assumptions C12_insertion_labelled.
+
+Theorem C12_hard_switch_labelled : forall a b main l p1 k1,
+  Forall (fun t => is_lang t = false) a ->
+  Forall (fun t => is_lang t = false) b ->
+  str_eqb l main = false ->
+  sections (a ++ LangT p1 l false true k1 :: b) [main] false false [] []
+  = stretch main false false a ++ stretch l false k1 b.
+Proof. exact sections_hard_switch. Qed.
+Print Assumptions C12_hard_switch_labelled.
+
+Theorem C12_same_language_no_cut : forall a b c main lb p1 p2 k1 k2,
+  Forall (fun t => is_lang t = false) a ->
+  Forall (fun t => is_lang t = false) b ->
+  Forall (fun t => is_lang t = false) c ->
+  str_eqb lb main = false ->
+  sections (a ++ LangT p1 main false false k1 :: b ++ LangT p2 lb true false k2 :: c)
+           [main] false false [] []
+  = stretch main false false (a ++ b ++ c).
+Proof. exact sections_same_language. Qed.
+Print Assumptions C12_same_language_no_cut.
+
+(* the threshold rule *)
+Theorem C12_short_insertion_joined : forall is_space check_lang thresh k s0 s1 s2 rot s0' rot',
+  s_brk s1 = false -> s_back s1 = false ->
+  str_eqb (s_lang s0) (s_lang s2) = true ->
+  short_section is_space thresh s1 = true ->
+  append_placeholder is_space check_lang rot s0 s1 = Ok (s0', rot') ->
+  join_sections is_space check_lang thresh (S (S k)) [s0; s1; s2] rot []
+  = Ok [s1; {| s_lang := s_lang s0'; s_back := s_back s0'; s_brk := s_brk s0';
+               s_txt := s_txt s0' ++ s_txt s2; s_pos := s_pos s0' ++ s_pos s2 |}].
+Proof. exact join_short_insertion. Qed.
+Print Assumptions C12_short_insertion_joined.
+
+Theorem C12_long_insertion_kept : forall is_space check_lang thresh k s0 s1 s2 rot,
+  short_section is_space thresh s1 = false ->
+  short_section is_space thresh s2 = false \/ s_brk s2 = true \/ s_back s2 = true ->
+  join_sections is_space check_lang thresh (S (S (S k))) [s0; s1; s2] rot []
+  = Ok [s0; s1; s2].
+Proof. exact join_long_insertion. Qed.
+Print Assumptions C12_long_insertion_kept.
+
+Example C12_insertion_example :
+  let en := [101; 110]%N in let de := [100; 101]%N in
+  sections ([TextT 0 [65]%N; SpaceT 1 [32]%N] ++ LangT 2 de false false false ::
+            [TextT 20 [66]%N] ++ LangT 21 [] true false false :: [SpaceT 22 [32]%N; TextT 23 [67]%N])
+           [en] false false [] []
+  = [{| s_lang := en; s_back := false; s_brk := false; s_txt := [65; 32]%N; s_pos := [0; 1] |};
+     {| s_lang := de; s_back := false; s_brk := false; s_txt := [66]%N; s_pos := [20] |};
+     {| s_lang := en; s_back := true; s_brk := false; s_txt := [32; 67]%N; s_pos := [22; 23] |}].
+Proof. reflexivity. Qed.
 
 Example C12_nonvacuous :
   let a := mk KText 0 [97]%N false in let b := mk KText 5 [98]%N false in
